@@ -715,6 +715,44 @@ where
             }
             run_with_body(req, kind, cfg, prov, &v)
         }
+        4 => {
+            // built in stages with the accessors read in between (a container that caches what it exposes must notice
+            // later additions and removals)
+            let mut v = VecSignedHeaderRequirements::default();
+            let half = |n: usize| n / 2;
+            for h in &r.always[..half(r.always.len())] {
+                v.add_always_present(h);
+            }
+            for h in &r.if_req[..half(r.if_req.len())] {
+                v.add_if_in_request(h);
+            }
+            for h in &r.prefixes[..half(r.prefixes.len())] {
+                v.add_prefix(h);
+            }
+            let seen = v.always_present().len() + v.if_in_request().len() + v.prefixes().len();
+            std::hint::black_box(seen);
+            let copy = v.clone();
+            std::hint::black_box(copy.always_present().len());
+            for h in &r.always[half(r.always.len())..] {
+                v.add_always_present(h);
+            }
+            for h in &r.if_req[half(r.if_req.len())..] {
+                v.add_if_in_request(h);
+            }
+            for h in &r.prefixes[half(r.prefixes.len())..] {
+                v.add_prefix(h);
+            }
+            if let Some(h) = r.always.first() {
+                v.remove_always_present(&h.to_ascii_uppercase());
+                std::hint::black_box(v.always_present().len());
+                v.add_always_present(h);
+            }
+            if let Some(h) = r.prefixes.last() {
+                v.remove_prefix(h);
+                v.add_prefix(&h.to_ascii_uppercase());
+            }
+            run_with_body(req, kind, cfg, prov, &v)
+        }
         _ => {
             let (a, i, p) = (cows(&r.always), cows(&r.if_req), cows(&r.prefixes));
             let s = SliceSignedHeaderRequirements::new(&a, &i, &p);
